@@ -37,17 +37,29 @@ class ListV:
         return 'ListV(%r)' % (self.items,)
 
 
+EXC_BASES = {}      # exception classes defined in the analysed package: name -> names of its bases (Interp fills it)
+
+
 def exc_matches(exc, names):
     """does an exception of class ``exc`` (a name) match an except/suppress specification (names)?  Built-in classes
-    follow Python's hierarchy (KeyError is a LookupError, IOError is OSError); other names match by name"""
+    follow Python's hierarchy (KeyError is a LookupError, IOError is OSError); a class of the package is also what its
+    bases are (class IncompatibleUnitsError(ValueError) is caught by `except ValueError`)"""
     import builtins as _b
-    e_ = getattr(_b, exc.split('.')[-1], None)
+    anc, todo = [], [exc.split('.')[-1]]
+    while todo:
+        x = todo.pop()
+        if x not in anc:
+            anc.append(x)
+            todo.extend(b_.split('.')[-1] for b_ in EXC_BASES.get(x, ()))
     for nm in names:
-        if nm == exc or nm.split('.')[-1] == exc.split('.')[-1]:
+        short = nm.split('.')[-1]
+        if short in anc:
             return True
-        c_ = getattr(_b, nm.split('.')[-1], None)
-        if isinstance(e_, type) and isinstance(c_, type) and issubclass(e_, BaseException) and issubclass(e_, c_):
-            return True
+        c_ = getattr(_b, short, None)
+        for x in anc:
+            e_ = getattr(_b, x, None)
+            if isinstance(e_, type) and isinstance(c_, type) and issubclass(e_, BaseException) and issubclass(e_, c_):
+                return True
     return False
 
 
@@ -341,16 +353,26 @@ class DictV:
                     if d_.iszero():
                         return ok_
                     if not d_.is_const():
-                        raise Unsupported('dictionary keys: equality of symbolic numbers %r and %r undecided'
-                                          % (k, ov_))
+                        I_ = CUR_INTERP[0]
+                        same_ = I_.order(k, '==', ov_) if I_ is not None and I_.order is not None else None
+                        if same_ is True:
+                            return ok_
+                        if same_ is None:
+                            raise Unsupported('dictionary keys: equality of symbolic numbers %r and %r undecided'
+                                              % (k, ov_))
             for ok_ in self.d:
                 if isinstance(ok_, int) and not isinstance(ok_, bool):
                     d_ = k - C(ok_)
                     if d_.iszero():
                         return ok_
                     if not d_.is_const():
-                        raise Unsupported('dictionary keys: equality of the symbolic number %r and %r undecided'
-                                          % (k, ok_))
+                        I_ = CUR_INTERP[0]
+                        same_ = I_.order(k, '==', C(ok_)) if I_ is not None and I_.order is not None else None
+                        if same_ is True:
+                            return ok_
+                        if same_ is None:
+                            raise Unsupported('dictionary keys: equality of the symbolic number %r and %r undecided'
+                                              % (k, ok_))
         self.keyobj[nk] = k
         return nk
 
@@ -386,6 +408,7 @@ def _hazard_property(kind):
 
 
 CUR_NODE = [None]       # the statement being interpreted
+CUR_INTERP = [None]     # the interpreter at work (for decisions taken below the frame level: dictionary keys)
 CUR_REL = [None]        # file of the statement being interpreted (for hazards recorded below the frame level)
 
 
@@ -581,6 +604,10 @@ class Interp:
         self.default_cache = {}
         self._is_gen = {}
         self.module_globals = {}      # (module, node id) -> shared mutable module-level container
+        EXC_BASES.clear()
+        for ci_ in repo.all_classes():
+            if ci_.base_exprs and ci_.name not in EXC_BASES:
+                EXC_BASES[ci_.name] = list(ci_.base_exprs)
         self.evaluating = set()       # ids of module-level right-hand sides being evaluated (X = f(X))
         self.func_attrs = {}          # (def node id, closure id, name) -> attribute stored on a function object
         self.sym_strings = {}         # placeholder python str -> (width, cls): symbolic text values
@@ -945,6 +972,7 @@ class Interp:
     def call_function(self, module, fn, args, kwargs, self_obj=None, owner=None, name=None, closure=None,
                       preset=None, frame_self=None, raw=False):
         """inline a FunctionDef with evaluated args. Returns value or Raised."""
+        CUR_INTERP[0] = self
         module = getattr(fn, '_home_module', module)    # a module-level function bound in a class body elsewhere
         try:
             env = self._bind(module, fn, args, kwargs, self_obj, owner, name, preset)
@@ -985,7 +1013,13 @@ class Interp:
                 if isinstance(v, (ListV, DictV)):
                     raise _RaisedExc(Raised('TypeError', fn))        # unhashable argument
                 return ('o', id(v))
-            memo_key = (id(fn), tuple(hk(a_) for a_ in args), tuple(sorted((k_, hk(v_)) for k_, v_ in kwargs.items())))
+            try:
+                memo_key = (id(fn), tuple(hk(a_) for a_ in args),
+                            tuple(sorted((k_, hk(v_)) for k_, v_ in kwargs.items())))
+            except _RaisedExc as r:
+                if self.depth > 0:
+                    raise
+                return r.raised
             if memo_key in self.memo:
                 return self.memo[memo_key]
         self.depth += 1
@@ -1091,6 +1125,8 @@ class Interp:
             return SegStr.lit(str(v))
         if isinstance(v, Obj) and 'Number' in v.isa:
             return SegStr.field(v.name, None, 'num')
+        if isinstance(v, Obj) and '__format__' in v.opaque_methods:
+            return to_segstr(v.opaque_methods['__format__'](self, v, [spec or ''], {}))
         if isinstance(v, ListV) and not spec:
             # str(list): elements separated by ', ' inside brackets (numbers print as themselves)
             out = SegStr.lit('[')
@@ -1435,9 +1471,18 @@ class Interp:
             elif isinstance(a, ListV):
                 if op == '*' and not getattr(a, 'is_array', False) and isinstance(b, Rat) and b.is_const() \
                         and b.const_value().denominator == 1:
-                    return ListV(a.items * int(b.const_value()))
+                    rp_ = ListV(a.items * int(b.const_value()))
+                    if getattr(a, 'is_tuple', False):
+                        rp_.is_tuple = True             # (x,) * n is a tuple
+                    return rp_
                 r = ListV([self.binop(op, x, b) for x in a.items])
             else:
+                if op == '*' and not getattr(b, 'is_array', False) and isinstance(a, Rat) and \
+                        (a.iszero() or (a.is_const() and a.const_value().denominator == 1)):
+                    rp_ = ListV(b.items * (0 if a.iszero() else int(a.const_value())))       # n * [x]
+                    if getattr(b, 'is_tuple', False):
+                        rp_.is_tuple = True
+                    return rp_
                 r = ListV([self.binop(op, a, y) for y in b.items])
             r.is_array = True
             return r
@@ -1620,7 +1665,7 @@ class Interp:
                 return res if op == '==' else not res
             if op in ('in', 'not in') and isinstance(b, (ListV, DictV)):
                 pa = self.plain(a)
-                items = b.items if isinstance(b, ListV) else list(b.d.keys())
+                items = b.items if isinstance(b, ListV) else [b.okey(k_) for k_ in b.d]
                 if isinstance(pa, str):
                     res = any(isinstance(self.plain(x), str) and self.plain(x) == pa for x in items)
                     return res if op == 'in' else not res
@@ -1673,6 +1718,17 @@ class Interp:
                 return res if op == 'in' else not res
             elif isinstance(b, Obj) and '__contains__' in b.opaque_methods:
                 res = self.truth(b.opaque_methods['__contains__'](self, b, [a], {}), node)
+                return res if op == 'in' else not res
+            elif isinstance(b, TableRef):
+                # membership in a module-level table: the lookup does not raise KeyError
+                try:
+                    b.lookup(Frame(self, b.module, {}, None, None), self.plain(a) if isinstance(a, (str, SegStr)) else a,
+                             node)
+                    res = True
+                except _RaisedExc as e_:
+                    if e_.raised.exc != 'KeyError':
+                        raise
+                    res = False
                 return res if op == 'in' else not res
             else:
                 raise Unsupported('membership test on %r' % (b,))
@@ -3303,7 +3359,9 @@ class Frame:
                     if isinstance(cv_, FuncRef) and cv_.self_obj is None:
                         # a function found in the class (a lambda, a closure made by a factory) is bound to the
                         # instance it is read through, like a def
-                        return FuncRef(cv_.module, cv_.fn, obj, k, cv_.closure, cv_.defaults, cv_.frame_self)
+                        bf_ = FuncRef(cv_.module, cv_.fn, obj, k, cv_.closure, cv_.defaults, cv_.frame_self)
+                        bf_.bound_via_class = True
+                        return bf_
                     return cv_
         if attr in obj.opaque_methods:
             return BoundOpaque(obj, attr)
@@ -3477,6 +3535,10 @@ class Frame:
     def apply(self, fv, args, kwargs, n=None):
         I = self.I
         if isinstance(fv, FuncRef):
+            if fv.closure is not None or isinstance(fv.fn, ast.Lambda):
+                if isinstance(fv.self_obj, (Obj, ClassInfo)) and isinstance(fv.owner, ClassInfo) and \
+                        getattr(fv, 'bound_via_class', False):
+                    args = [fv.self_obj] + list(args)       # a function found in the class, read through an instance
             if isinstance(fv.fn, ast.Lambda):
                 a_ = fv.fn.args
                 names = [x.arg for x in a_.posonlyargs + a_.args]
@@ -3713,9 +3775,9 @@ class ZipV:
         for i in range(n):
             tup = ListV([x[i] for x in lists])
             if self.enumerate_start is not None:
-                out.append(ListV([C(self.enumerate_start + i), tup.items[0]]))
-            else:
-                out.append(tup)
+                tup = ListV([C(self.enumerate_start + i), tup.items[0]])
+            tup.is_tuple = True             # zip and enumerate yield tuples
+            out.append(tup)
         # what zip takes from one-shot iterators among its sources is gone: n items from each, and one more from
         # every source that precedes the first exhausted one (zip asks them first and drops what it got)
         first_short = next((k for k, x in enumerate(lists) if len(x) == n), len(lists))
@@ -3984,7 +4046,10 @@ def builtin_call(I, fr, name, args, kwargs, n):
         return ListV([C(i) for i in range(*vals)])
     if name in ('list', 'tuple'):
         if not args:
-            return ListV([])
+            e_ = ListV([])
+            if name == 'tuple':
+                e_.is_tuple = True
+            return e_
         v = args[0]
         if isinstance(v, ListV):
             r_ = ListV(take(v))
@@ -3997,14 +4062,20 @@ def builtin_call(I, fr, name, args, kwargs, n):
             return v
         if isinstance(v, ZipV) and v.vector:
             return Elem(v.generic())        # vectors of unknown (equal) length zipped: a vector of tuples
+        def made(r_):
+            if name == 'tuple':
+                r_.is_tuple = True
+            return r_
         if isinstance(v, ZipV):
-            return ListV(v.take_all())
+            return made(ListV(v.take_all()))
         if isinstance(v, DictV):
-            return ListV([v.okey(k) for k in v.d.keys()])
+            return made(ListV([v.okey(k) for k in v.d.keys()]))
         if isinstance(v, str) and v not in I.sym_strings:
-            return ListV(list(v))
+            return made(ListV(list(v)))
         if v is None or isinstance(v, (bool, Rat)):
             raise _RaisedExc(Raised('TypeError', n))        # not iterable
+        if isinstance(v, Obj):
+            return made(ListV(list(fr.iter_items(v, n))))       # the object's own iteration protocol
         raise Unsupported('list() of %r' % (v,), n)
     if name == 'type':
         return TypeOf(args[0])
@@ -4073,6 +4144,9 @@ def builtin_call(I, fr, name, args, kwargs, n):
             elif tn in ('set', 'frozenset'):
                 res = res or (isinstance(v, ListV) and bool(getattr(v, 'is_set', False)) and
                               (tn == 'frozenset') == bool(getattr(v, 'frozen', False)))
+            elif tn in ('np.bool_', 'numpy.bool_', 'numpy.bool', 'np.bool'):
+                if isinstance(v, bool):
+                    raise Unsupported('isinstance(np.bool_) of a truth value whose type is not tracked', n)
             elif tn in ('bytes', 'complex'):
                 pass            # no such values in the abstract domain
             else:
@@ -4115,8 +4189,10 @@ def builtin_call(I, fr, name, args, kwargs, n):
         raise Unsupported('abs of symbolic value', n)
     if name == 'sum':
         v = args[0]
-        if isinstance(v, ListV) and v.items and all(isinstance(r_, ListV) for r_ in v.items):
-            # sum(matrix[, 0]): rows are added element by element (numpy arrays)
+        if isinstance(v, ListV) and v.items and all(isinstance(r_, (ListV, Elem)) for r_ in v.items) and \
+                not getattr(v, 'is_array', False) or (
+                isinstance(v, ListV) and v.items and all(isinstance(r_, ListV) for r_ in v.items)):
+            # sum(matrix[, 0]) / sum([vec_a, vec_b]): start + x0 + x1 ..., i.e. element by element for numpy arrays
             tot = args[1] if len(args) > 1 else C(0)
             for r_ in v.items:
                 tot = I.binop('+', tot, r_)
@@ -4315,10 +4391,12 @@ def builtin_call(I, fr, name, args, kwargs, n):
             if got:
                 try:
                     r = I.call_method(args[0], '__str__', [], {})
-                    if isinstance(r, str):
-                        return r
+                    if isinstance(r, (str, SegStr)):
+                        return I.plain(r) if isinstance(r, SegStr) else r
                 except Unsupported:
                     pass        # symbolic content: the text itself is not modelled
+        if args and isinstance(args[0], Obj) and '__str__' in args[0].opaque_methods:
+            return I.plain(to_segstr(args[0].opaque_methods['__str__'](I, args[0], [], {})))
         if not (args and isinstance(args[0], Obj)):
             # a text without abstract spelling: harmless inside a message, nowhere else (checked at the end of the run)
             PLACEHOLDER_LOG.append((CUR_REL[0], getattr(n, 'lineno', 0)))
@@ -4367,6 +4445,57 @@ ARRAY_METHOD_HOOK = None        # set by pmv.stdlib: methods of arrays / vectors
 
 
 TUPLE_METHODS = frozenset(dir(tuple))
+
+
+_STRFTIME_W = {'Y': 4, 'm': 2, 'd': 2, 'H': 2, 'M': 2, 'S': 2, 'y': 2, 'j': 3, 'f': 6, '%': 1}
+
+
+def strftime_text(fmt_):
+    """the text strftime makes of a date nobody knows: a field of digits and separators whose width is fixed by the
+    directives (those whose width depends on the date or the locale - %B, %A, %c ... - are not modelled)"""
+    if not isinstance(fmt_, str) or '\x00' in fmt_:
+        raise Unsupported('strftime with a symbolic format')
+    w, i_ = 0, 0
+    while i_ < len(fmt_):
+        if fmt_[i_] == '%' and i_ + 1 < len(fmt_):
+            if fmt_[i_ + 1] not in _STRFTIME_W:
+                raise Unsupported('strftime directive %%%s' % fmt_[i_ + 1])
+            w += _STRFTIME_W[fmt_[i_ + 1]]
+            i_ += 2
+        else:
+            w += 1
+            i_ += 1
+    return SegStr.field('date<%s>' % fmt_, w, 'num')
+
+
+def clock_object(kind):
+    """a datetime / date of an unknown instant. Modelled: strftime and __format__ with a format (a field whose width the
+    directives fix), isoformat / str() (a text whose width depends on the instant: 19 or 26 characters), date(); every
+    other member the real object has is refused - never an AttributeError the program would not see"""
+    o = Obj('now<%s>' % kind, closed=True)
+
+    def refuse(what):
+        def f(I2, o2, a, k):
+            raise Unsupported('%s (no model)' % what)
+        return f
+
+    def iso(I2, o2, a, k):
+        sep = a[0] if a else k.get('sep', 'T')
+        if not isinstance(sep, str) or set(k) - {'sep'} or len(a) > 1:
+            raise Unsupported('isoformat with these arguments')
+        return SegStr.field('now<iso%s>' % sep, None if kind == 'datetime.datetime' else 10, 'text')
+    o.opaque_methods['strftime'] = lambda I2, o2, a, k: strftime_text(a[0] if a else k.get('format'))
+    o.opaque_methods['__format__'] = lambda I2, o2, a, k: (
+        strftime_text(a[0]) if a and a[0] != '' else iso(I2, o2, [' '], {}))
+    o.opaque_methods['__str__'] = lambda I2, o2, a, k: iso(I2, o2, [' '], {})
+    o.opaque_methods['isoformat'] = iso
+    if kind == 'datetime.datetime':
+        o.opaque_methods['date'] = lambda I2, o2, a, k: clock_object('datetime.date')
+    import datetime as _dt
+    for name_ in dir({'datetime.datetime': _dt.datetime, 'datetime.date': _dt.date}[kind]):
+        if name_ not in o.opaque_methods and not name_.startswith('__'):
+            o.opaque_methods[name_] = refuse('%s.%s' % (kind, name_))
+    return o
 
 
 NUMPY_SCALAR_MEMBERS = frozenset('''
@@ -4525,7 +4654,16 @@ def bound_native(I, fr, bn, args, kwargs, n):
             k = b.nkey(args[0])
             return b.d.get(k, args[1] if len(args) > 1 else None)
         if name == 'items':
-            return ListV([ListV([b.okey(k), v]) for k, v in b.d.items()])
+            prs_ = []
+            for k, v in b.d.items():
+                pr_ = ListV([b.okey(k), v])
+                pr_.is_tuple = True         # (key, value) pairs are tuples
+                prs_.append(pr_)
+            return ListV(prs_)
+        if name == 'clear' and not args:
+            b.d.clear()
+            b.keyobj.clear()
+            return None
         if name == 'keys':
             r_ = ListV([b.okey(k) for k in b.d.keys()])
             r_.is_keys = True           # a key view takes part in set algebra (keys() & other, keys() - other)
@@ -4652,6 +4790,20 @@ def abstract_str_method(I, fr, b, name, args, kwargs, n):
     if not sym:
         return NotImplemented
     sb = I.seg(b)
+    if name in ('find', 'rfind') and len(args) > 1 and isinstance(args[0], str) and args[0] not in I.sym_strings \
+            and (name == 'rfind' or len(args) > 2):
+        # s.find(sub, start[, end]) / s.rfind(sub, start[, end]): the search inside s[start:end]
+        total = len(sb)
+        lo = _as_int(args[1], n) if args[1] is not None else 0
+        hi = _as_int(args[2], n) if len(args) > 2 and args[2] is not None else total
+        lo = max(0, lo + total) if lo < 0 else min(lo, total)
+        hi = max(0, hi + total) if hi < 0 else min(hi, total)
+        if lo > hi or (lo == hi and args[0]):
+            return C(-1)
+        r = sb.rfind(args[0], lo, hi) if name == 'rfind' else sb.find_in(args[0], lo, hi)
+        if r is None:
+            raise Unsupported('%s(): user text after the last literal occurrence' % name, n)
+        return C(r)
     if name == 'find':
         start = _as_int(args[1], n) if len(args) > 1 else 0
         if not isinstance(args[0], str):
@@ -5062,6 +5214,20 @@ def _np_dot(I, fr, args, kwargs, n):
     raise Unsupported('np.dot operands', n)
 
 
+def _math_log(I, fr, args, kwargs, n):
+    if len(args) != 1 or kwargs:
+        raise Unsupported('math.log with a base', n)
+    if not isinstance(args[0], Rat):
+        raise Unsupported('math.log of %r' % (args[0],), n)
+    return _np_unary('log')(I, fr, args, kwargs, n)
+
+
+def _math_pow(I, fr, args, kwargs, n):
+    if len(args) != 2 or kwargs or not all(isinstance(a, Rat) for a in args):
+        raise Unsupported('math.pow with these arguments', n)
+    return I.binop('**', args[0], args[1])
+
+
 def _np_unary(fname):
     def h(I, fr, args, kwargs, n):
         v = _arg(args, kwargs, 0, 'x')
@@ -5108,6 +5274,12 @@ def _np_sum(I, fr, args, kwargs, n):
     if not (isinstance(axis, Rat) and axis.is_const() and axis.const_value() in (0, 1, -1)):
         raise Unsupported('np.sum along axis %r' % (axis,), n)
     ax = int(axis.const_value())
+    if isinstance(v, ListV) and v.items and ax == 0 and all(isinstance(r_, Elem) for r_ in v.items):
+        # a list of vectors of one (unknown) length summed along the first axis: element by element
+        tot = v.items[0]
+        for r_ in v.items[1:]:
+            tot = I.binop('+', tot, r_)
+        return tot
     if not (isinstance(v, ListV) and v.items and all(isinstance(r_, ListV) and len(r_) == len(v.items[0]) and
                                                      not any(isinstance(x, ListV) for x in r_.items)
                                                      for r_ in v.items)):
@@ -5132,6 +5304,12 @@ def _np_sort(I, fr, args, kwargs, n):
 
 def _np_prod(I, fr, args, kwargs, n):
     v = _arg(args, kwargs, 0, 'a')
+    if isinstance(v, ListV) and any(isinstance(x, Elem) for x in v.items):
+        # np.prod without an axis reduces over every axis: the product over the entries of the element-wise product
+        tot = None
+        for x in v.items:
+            tot = x if tot is None else I.binop('*', tot, x)
+        v = tot if isinstance(tot, Elem) else Elem(tot)
     if isinstance(v, ListV):
         tot = C(1)
         for x in v.items:
@@ -6183,6 +6361,7 @@ def _np_full_like(I, fr, args, kwargs, n):
         # element type: the one asked for, else that of the prototype (a caller's container may hold integers)
         tag = _dtype_tag(dt)
         r.dtype = tag if tag is not None else getattr(a, 'dtype', 'caller')
+        fr.int_store(r, [fill], n)          # the fill value is cast to the element type of the result
         return r
     if isinstance(a, Elem):
         return Elem(fill)
@@ -6411,6 +6590,10 @@ NATIVE = {
     'numpy.log': _np_unary('log'),
     'numpy.exp': _np_unary('exp'),
     'numpy.sqrt': _np_unary('sqrt'),
+    'numpy.cbrt': lambda I, fr, args, kwargs, n: I.unary_fn(lambda r: I.D.powq(r, Fr(1, 3)), _arg(args, kwargs, 0, 'x')),
+    'math.sqrt': _np_unary('sqrt'), 'math.exp': _np_unary('exp'),
+    'math.log': lambda I, fr, args, kwargs, n: _math_log(I, fr, args, kwargs, n),
+    'math.pow': lambda I, fr, args, kwargs, n: _math_pow(I, fr, args, kwargs, n),
     'numpy.abs': _np_unary('abs'), 'numpy.absolute': _np_unary('abs'), 'numpy.fabs': _np_unary('abs'),
     'numpy.sinh': _np_unary('sinh'),
     'numpy.cosh': _np_unary('cosh'),
@@ -6486,9 +6669,10 @@ NATIVE = {
     'scipy.integrate.quad': _quad,
     'networkx.Graph': lambda I, fr, args, kwargs, n: _nx_graph(I), 'networkx.DiGraph': lambda I, fr, args, kwargs, n: _nx_graph(I),
     # wall-clock text in file headers: a fixed-form stamp whose content no rule depends on
-    'datetime.datetime.now': lambda I, fr, args, kwargs, n: '2000-01-01 00:00:00.000000',
-    'datetime.datetime.today': lambda I, fr, args, kwargs, n: '2000-01-01 00:00:00.000000',
-    'datetime.date.today': lambda I, fr, args, kwargs, n: '2000-01-01',
+    'datetime.datetime.now': lambda I, fr, args, kwargs, n: clock_object('datetime.datetime'),
+    'datetime.datetime.today': lambda I, fr, args, kwargs, n: clock_object('datetime.datetime'),
+    'datetime.datetime.utcnow': lambda I, fr, args, kwargs, n: clock_object('datetime.datetime'),
+    'datetime.date.today': lambda I, fr, args, kwargs, n: clock_object('datetime.date'),
     'time.time': lambda I, fr, args, kwargs, n: I.D.sym('wallclock'),
     'time.strftime': lambda I, fr, args, kwargs, n: '2000-01-01 00:00:00',
 }
